@@ -4,7 +4,7 @@ import json, os
 HERE = os.path.dirname(os.path.abspath(__file__))
 CHECKS = {
  "C01": dict(tech="explicit-state BFS over program recipes x configs x inputs; compiled TEAL executed on reference AVM vs direct evaluator",
-             text="Bounded exhaustive exploration: every control-flow recipe up to the node bound, every operator on every leaf tuple, every nesting of order-revealing operators with effectful leaves, every read/effect constructor; each compiled under every listed version/mode/option and executed on the reference AVM for every input of the alphabet, compared with a direct evaluator of the recipe.",
+             text="Bounded exhaustive exploration: every control-flow recipe up to the node bound, every operator on every leaf tuple, every nesting of order-revealing operators with effectful leaves, every read/effect constructor, the small recipes again with shared Expr objects and beside live variables with requested adjacent slot ids; each compiled under every listed version/mode/option and executed on the reference AVM for every input of the alphabet, compared with a direct evaluator of the recipe.",
              note="trusts the reference AVM interpreter (self-test + golden corpus) and the direct evaluator; values from boundary alphabets; nothing claimed above the size bound", ref="2/C01"),
  "C20": dict(tech="explicit-state BFS over control-flow shapes (main/bare/subroutine), degenerate and long programs x configs; outcome class must be TEAL or a PyTeal error; valid shapes must be accepted",
              text="Bounded exhaustive exploration of every control-flow recipe up to the node bound in three placements (after a store, as first statement, inside a subroutine), hand-listed degenerate shapes, ill-formed programs and long programs, under every listed version/option; any exception other than PyTeal's own error types, and any rejection of a syntactically valid recipe, is a violation.",
@@ -19,16 +19,16 @@ CHECKS = {
              text="For every emitted program of the recipe populations and configurations, all reachable abstract states of every routine are explored (one height per pc, no pop below the routine's floor, no definitely wrong operand type, consistent retsub heights, frame accesses inside the frame); programs without anytype expressions are also executed and must not fault with a type or underflow error.",
              note="opcode stack signatures from vf/avm/spec.py; callsub summaries inferred; slot contents are untyped (load yields unknown)", ref="2/C05"),
  "C03": dict(tech="exhaustive enumeration of recipes (control flow, call graphs, all store/load sequences over the optimiser alphabet) x all option/version settings; differential execution on the reference AVM against a pivot configuration",
-             text="Every recipe is compiled under every option setting and version at which it compiles; all results run on every input and must agree with the pivot in verdict, value, effects and user-numbered scratch slots; pairs differing only in the slot optimisation must also agree on the stack portion a routine owns whenever control leaves it.",
+             text="Every recipe (and every hand-written ABI-subroutine program of the C02 families) is compiled under every option setting and version at which it compiles; all results run on every input and must agree with the pivot in verdict, value, effects and user-numbered scratch slots; pairs differing only in the slot optimisation must also agree on the stack portion a routine owns whenever control leaves it.",
              note="reference AVM; spilled caller slots are excluded from the stack comparison (implementation detail of the calling convention)", ref="2/C03"),
  "C17": dict(tech="exhaustive enumeration of store/load placements over control-flow shapes; oracle = explicit-state reachability over (position, stored-set) on the recipe's syntactic CFG",
-             text="All placements of stores and loads of two routine-local variables over all control-flow shapes up to the node bound, in main and in a subroutine, automatic and requested slots: whenever the independent path search finds a load reachable without a store, compilation must fail with PyTeal's uninitialised-slot error naming a load of such a variable.",
+             text="All placements of stores and loads of two routine-local variables over all control-flow shapes up to the node bound, in main and in a subroutine, as ScratchVars with automatic and requested slots, as abi.Uint64 values (set/get) and as bare ScratchSlots: whenever the independent path search finds a load reachable without a store, compilation must fail with PyTeal's uninitialised-slot error naming a load of such a variable.",
              note="one direction only (the statement's): acceptance of initialised programs is C20's business; syntactic paths", ref="2/C17"),
  "C18": dict(tech="exhaustive enumeration of insertion points x annotation kinds x all texts up to a length bound; normalised instruction streams compared via the independent TEAL grammar",
              text="Every insertion point of every base program x Comment / Assert comment / Pragma / Nonce / subroutine name x every text of length <= L over an adversarial alphabet (quotes, //, ;, backslash, line breaks, U+2028, colon) plus a list of nasty texts: comment lines dropped, labels alpha-renamed, the Nonce byte/pop pair removed, the instruction streams must be identical and the annotated text must still assemble.",
              note="line structure as the go-algorand assembler sees it (only \\n ends a line)", ref="2/C18"),
  "C12": dict(tech="exhaustive enumeration of constant-load sequences over a spelling alphabet, k repeated constants for k up to 300, control-flow recipes; site-by-site comparison through an independent literal decoder + differential execution",
-             text="Every sequence of <= k constant loads over 18 spellings (ints, named enums, every byte-literal syntax, addr, method, templates), k distinct repeated constants for k crossing 4/128/255/256, and control-flow recipes, compiled with and without assembleConstants at several versions: each constant site must load the value the pseudo-op denotes through an in-range, encodable block index, all other instructions are identical, and both programs behave identically.",
+             text="Every sequence of <= k constant loads over 24 spellings (ints, named enums, every byte-literal syntax, addr, method, templates, and byte strings whose text equals the text of a constant of another kind), k distinct repeated constants for k crossing 4/128/255/256, and control-flow recipes, compiled with and without assembleConstants at several versions: each constant site must load the value the pseudo-op denotes through an in-range, encodable block index, all other instructions are identical, and both programs behave identically.",
              note="literal grammar of vf/avm/tokens.py; reference AVM", ref="2/C12"),
  "C13": dict(tech="exhaustive enumeration of literal texts up to a length bound over adversarial alphabets per literal kind; emitted line decoded by an independent port of the go-algorand literal grammar vs Python's decoding",
              text="Every string of length <= L over an 18-character adversarial alphabet for Bytes(str), all single bytes (pairs in thorough), every base16/32/64 text up to length 4-5 over mixed valid/invalid alphabets, every single-character corruption of two valid addresses, boundary Ints, every MethodSignature text up to length 3-4: the program must keep its instruction count and the decoded literal must equal Python's decoding; malformed literals must be rejected at construction.",
@@ -43,25 +43,25 @@ CHECKS = {
              text="All type shapes of the universe (base types, static/dynamic arrays, tuples, named tuples, every bool run bool^1..17 with prefixes/suffixes, depth-2 composites): descriptor strings / static length / dynamic-ness compared with the reference codec, and values assembled with set(...) from Python literals and from run-time expressions, in the main routine and in a subroutine (frame variables), must log exactly the reference encoding; out-of-range integers rejected at build (literals) or failing at run time (expressions).",
              note="algosdk.abi as the ARC-4 reference; value combinations capped per shape (cap in evidence)", ref="2/C06"),
  "C07": dict(tech="exhaustive enumeration of shapes x every element position/accessor x boundary values; compiled extraction program run on reference encodings vs the component's reference encoding",
-             text="For every shape, every tuple index / named field / array index (constant and run-time, in range and out of range incl. 7/8/15/16 for bit-packed arrays), get() and length(): decode + access must yield the component's reference encoding for every boundary value; out-of-range indices must fail.",
+             text="For every shape, every tuple index / named field (also with a second NamedTuple class that uses the same field names at other positions instantiated before / after) / array index (constant and run-time, in range and out of range incl. 7/8/15/16 for bit-packed arrays), get() and length(): decode + access must yield the component's reference encoding for every boundary value; out-of-range indices must fail.",
              note="algosdk.abi as reference; reference AVM", ref="2/C07"),
  "C10": dict(tech="exhaustive enumeration of cell populations (n over a list crossing 128 and 256) x requested-id patterns x placements x kinds x options; marker write/read-back executed on reference AVM",
-             text="Programs with n simultaneously live cells for every n in the list, with automatic / requested / colliding / duplicate slot ids, spread over main and subroutines, as ScratchVars, ABI values (frame locals beyond 128), MaybeValue outputs and DynamicScratchVar aliases: every marker must survive, requested ids must be the ones index() sees, >256 cells or duplicate ids must be rejected.",
+             text="Programs with n simultaneously live cells for every n in the list, with automatic / requested / colliding / duplicate slot ids, spread over main and subroutines, as ScratchVars, ABI values (frame locals beyond 128, in plain and in ABI-returning subroutines), MaybeValue outputs and DynamicScratchVar aliases: every marker must survive, requested ids must be the ones index() sees, >256 cells or duplicate ids must be rejected.",
              note="reference AVM scratch/frame semantics", ref="2/C10"),
  "C08": dict(tech="exhaustive enumeration of router configurations (all MethodConfigs, all bare-call configurations, method pairs, clear-state variants) x full call alphabet; compiled router executed on reference AVM vs a documentation-derived lookup table",
-             text="Every MethodConfig of one method (1023), every bare-call configuration (1024), every ordered pair of methods over a reduced config alphabet, three-method routers, empty routers and six clear-state action kinds: each compiled with the real Router at several versions and called with every (selector or none / unknown / truncated / over-long, OnCompletion, create or not) combination; the handler logged must be exactly the one the registration table selects, everything else must be rejected; the clear program must run exactly the given action.",
+             text="Every MethodConfig of one method (1023), every bare-call configuration (1024), every ordered pair of methods over a reduced config alphabet, three-method routers, empty routers and six clear-state action kinds, every history of <= 3 (4) operations {query the signature, register in router A / B under the own / an overriding name} on ONE shared handler object, and pairs of methods with equal or colliding selectors (which must be refused): each compiled with the real Router at several versions and called with every (selector or none / unknown / truncated / over-long, OnCompletion, create or not) combination; the handler logged must be exactly the one the registration table selects, everything else must be rejected; the clear program must run exactly the given action.",
              note="reference AVM; ClearState never reaches an approval program on chain", ref="2/C08"),
  "C09": dict(tech="exhaustive enumeration of method signature families x value variants; transaction groups built by algosdk's AtomicTransactionComposer executed on the reference AVM; logs vs reference encodings",
-             text="Parameter lists of every length 0..17 by position patterns (the 14/15/16/17 tuple cutoff fully), all lists of length <= 2 (3) over five plain types, transaction and reference parameters at every position of lists up to length 4, void/uint64/string/tuple results: the method logs each received argument re-encoded, which must equal the client's reference encoding; one return log with the 0x151f7c75 prefix; a wrong transaction type must fail; the ABI contract's signatures/selectors must be the ones the approval program dispatches on.",
+             text="Parameter lists of every length 0..17 by position patterns (the 14/15/16/17 tuple cutoff fully), all lists of length <= 2 (3) over five plain types, transaction and reference parameters at every position of lists up to length 4, void/uint64/string/tuple results: the method logs each received argument re-encoded, which must equal the client's reference encoding; one return log with the 0x151f7c75 prefix; a wrong transaction type must fail; the ABI contract's signatures/selectors and argument names must be the ones the approval program dispatches on, also for methods registered under an overriding name (both registration paths) and for parameter names that collide with PyTeal's reserved keyword names.",
              note="algosdk ATC + abi codec as the independent client; reference AVM", ref="2/C09"),
  "C14": dict(tech="exhaustive enumeration of method signature families x value variants x argument forms; inner group recorded by the reference AVM decoded by an independent callee-side ARC-4 decoder",
-             text="For C09's signature families, ExecuteMethodCall with ABI values and with pre-encoded expressions, with and without extra fields: the recorded inner group must decode (selector, per-argument app args with arguments 15+ as one tuple, references through foreign arrays, transaction arguments as the preceding inner transactions) to the arguments given; ill-typed arguments must be rejected at build time.",
+             text="For C09's signature families, ExecuteMethodCall with ABI values and with pre-encoded expressions, with and without extra fields: the recorded inner group must decode (selector, per-argument app args with arguments 15+ as one tuple, references through foreign arrays, transaction arguments as the preceding inner transactions) to the arguments given; for every ordered pair (given type, declared type) of a 214-type universe whose ARC-4 layouts differ, and a list of other ill-typed arguments, the call must be rejected at build time.",
              note="algosdk.abi as decoder; reference AVM inner transaction model", ref="2/C14"),
  "C11": dict(tech="explicit-state exploration of API-activity histories (length <= L over 17 activities) replayed in children forked from fresh interpreters; probes compared byte-for-byte with history-free baselines; baselines compared across hash seeds",
-             text="The stateful property: every history of earlier API activity (successful and failing compilations at various versions/options, subroutine bodies raising with and without frame pointers, unused definitions, has_return probing, templates, router builds, source-map gate toggling) up to the length bound is replayed in a child forked from a fresh interpreter, then six probes x two versions are compiled and compared with the baseline of a fresh process; baselines are compared across six hash seeds and shifted allocation; repeated compilation of one expression / one router must reproduce the text. Global states reached are reported.",
+             text="The stateful property: every history of earlier API activity (successful and failing compilations at various versions/options, subroutine bodies raising with and without frame pointers, unused definitions, has_return probing, templates, router builds, source-map gate toggling) up to the length bound is replayed in a child forked from a fresh interpreter, then the probes x two versions are compiled and compared with the baseline of a fresh process (an activity with 'namesake' objects - same subroutine names, field names, literal texts as the probes' - is part of the alphabet); split probes run the history between the construction of a program's objects and its compilation; baselines are compared across six hash seeds and shifted allocation; repeated compilation of one expression / one router / one Compilation object must reproduce the text. Global states reached are reported.",
              note="hash seeds / allocation order cannot be exhausted (finite listed set); histories exhaustive up to the bound", ref="2/C11"),
  "C15": dict(tech="exhaustive round-trip enumeration of the VLQ codec and small R3 maps; recipes rendered as generated Python source files compiled with source maps in fresh interpreters (gate on/off), checked line by line against recorded marker positions",
-             text="Every integer of a range and every short tuple through the VLQ codec; every small Revision-3 map through to_json/from_json; control-flow and call-graph recipes rendered as generated source files (two modules, a unique marker constant per line, a variant with 3000 leading blank lines) compiled with_sourcemap under every annotate option: TEAL identical with/without map and with the gate on/off, one entry per TEAL line in order, existing file and line, each marker attributed to the line that wrote it, JSON round trip, annotated TEAL equal to plain TEAL once comments are removed.",
+             text="Every integer of a range and every short tuple through the VLQ codec (against an independently written Revision-3 VLQ codec too); every small Revision-3 map through to_json/from_json and through an independent Revision-3 decoder; control-flow and call-graph recipes rendered as generated source files (two modules, a unique marker constant per line, a variant with 3000 leading blank lines) compiled with_sourcemap under every annotate option: TEAL identical with/without map and with the gate on/off, one entry per TEAL line in order, existing file and line, each marker attributed to the line that wrote it, JSON round trip, annotated TEAL equal to plain TEAL once comments are removed.",
              note="PC-based maps (algod) out of scope; generated files live in a scratch directory under /tmp that is removed", ref="2/C15"),
 }
 NOT_YET = {}
